@@ -187,3 +187,27 @@ theorem lift_inner (X : Nat → Nat → Rat) (l n : Nat) (hl : l ≠ 0) (u u' : 
   exact rsum_congr (fun j _ => by field_simp)
 
 end SharkVerif.Trainers
+
+namespace SharkVerif.Trainers
+
+theorem rsum_succ_front (n : Nat) (f : Nat → Rat) : rsum (n + 1) f = f 0 + rsum n (fun i => f (i + 1)) := by
+  induction n with
+  | zero => simp
+  | succ n ih => rw [rsum_succ, ih, rsum_succ]; ring
+
+/-- a list sum as a sum over positions -/
+theorem lsum_eq_rsum_index (l : List Vec) (f : Vec → Rat) :
+    lsum l f = rsum l.length (fun a => f (l[a]?.getD [])) := by
+  induction l with
+  | nil => rfl
+  | cons x t ih =>
+    rw [List.length_cons, rsum_succ_front, lsum_cons, ih]
+    simp
+
+/-- the covariance in terms of the centred design matrix: `Cov = X0ᵀX0 / l` -/
+theorem covariance_eq_centred (bs : List (List Vec)) (i j : Nat) :
+    covariance bs i j = rsum (count bs) (fun a => centred bs a i * centred bs a j) / ((count bs : Nat) : Rat) := by
+  rw [covariance_flat, lsum_eq_rsum_index, count_eq_flatten]
+  rfl
+
+end SharkVerif.Trainers
